@@ -50,6 +50,7 @@ def cmd_confirm(args):
     demo_dst = os.path.join(wt, m["demo_path_in_tree"])
     res = {}
     sh("git checkout -- . ", wt)
+    os.makedirs(os.path.dirname(demo_dst), exist_ok=True)
     shutil.copy(os.path.join(d, m["demo_file"]), demo_dst)
     try:
         rc, out = sh(m["demo_cmd"], wt)
